@@ -93,8 +93,6 @@ example : occ (quantifier_add .TSQuantifierOne .TSQuantifierZeroOrOne) 2 :=
 
 /-! ## Ranges (generated `range_intersects`, `range_within`) -/
 
-def PLt (p q : TSPoint) : Prop := p.row < q.row ∨ (p.row = q.row ∧ p.column < q.column)
-def PLe (p q : TSPoint) : Prop := p.row < q.row ∨ (p.row = q.row ∧ p.column ≤ q.column)
 
 theorem range_intersects_spec (a b : TSRange) :
     range_intersects a b = true ↔
@@ -134,6 +132,17 @@ theorem range_within_spec (a b : TSRange) :
   cases asp; cases aep; cases bsp; cases bep
   simp only [decide_eq_true_eq]
   simp_all; omega
+
+/-- The generated predicates ARE the spec functions the judge filters with. -/
+theorem range_intersects_eq_spec (a b : TSRange) : range_intersects a b = intersectsSpec a b := by
+  rw [Bool.eq_iff_iff, range_intersects_spec]
+  unfold intersectsSpec
+  split <;> simp
+
+theorem range_within_eq_spec (a b : TSRange) : range_within a b = withinSpec a b := by
+  rw [Bool.eq_iff_iff, range_within_spec]
+  unfold withinSpec
+  simp
 
 /-- A range whose points are the images of its bytes under a position map. -/
 def Consistent (pos : Nat → TSPoint) (r : TSRange) : Prop :=
